@@ -241,6 +241,27 @@ func HarnessC05Conc(st any) {
 		sym.Assert(status == 200 || (status == 405 && allow == "POST"), "a request is answered from one published routing state (200 after the move, 405 Allow: POST before it)")
 		sym.Assert(r.Has("GET", "/flip/x") && !r.Has("POST", "/flip/x"), "the transaction is committed")
 		sym.Cover("method move||request")
+	case 10: // a write transaction that settles a snapshot of itself half way || another writer: no lost update
+		p := c05Pool[sym.Choose("p", len(c05Pool))]
+		settle := sym.Choose("settle", 2)
+		var eh error
+		sym.Go(func() {
+			txn := r.Txn(true)
+			_, _ = txn.Handle("POST", "/snap/a", noopHandler)
+			snap := txn.Snapshot()
+			if settle == 0 {
+				snap.Abort()
+			} else {
+				snap.Commit()
+			}
+			_, _ = txn.Handle("POST", "/snap/b", noopHandler)
+			txn.Commit()
+		})
+		sym.Go(func() { _, eh = r.Handle("POST", p, noopHandler) })
+		sym.Join()
+		sym.Assert(eh == nil, "the concurrent Handle succeeds")
+		sym.Assert(r.Has("POST", "/snap/a") && r.Has("POST", "/snap/b") && r.Has("POST", p) && r.Len() == base+3, "no committed write is lost when a transaction settles a snapshot of itself")
+		sym.Cover("txn with settled snapshot||writer")
 	case 5: // aborted transaction || reader
 		var saw bool
 		sym.Go(func() {
